@@ -172,46 +172,8 @@ def run(ctx):
         ctx.ob("C39.R3", site, "low part mask is (1 << (bits-1)) - 1", ok_mask, construct="mask")
         ctx.ob("C39.R3", site, "subtracted sign weight is 1 << (bits-1)", ok_sign, construct="sign-bit")
 
-    fn = ctx.fn(F, "correct")
-    site = F + ":correct"
-    env = sym.single_assign_env(fn)
-    bits = sym.atom("bits")
-    base_ok = "base" in env and sym.pow2_exp(env["base"], env) == bits
-    ctx.ob("C39.R3", site, "base == 1 << bits", base_ok, construct="base")
-    red = any(isinstance(n, ast.AugAssign) and isinstance(n.op, ast.Mod) and norm(n.target) == "value" and sym.pow2_exp(n.value, env) == bits for n in walk_no_nested(fn)) or \
-        any(isinstance(n, ast.BinOp) and isinstance(n.op, ast.Mod) and norm(n.left) == "value" and sym.pow2_exp(n.right, env) == bits for n in walk_no_nested(fn)) or \
-        any(isinstance(n, ast.BinOp) and isinstance(n.op, ast.BitAnd) and sym.mask_width(n.right, env) == bits for n in walk_no_nested(fn))
-    ctx.ob("C39.R3", site, "value is reduced modulo 1 << bits", red, construct="reduce")
-    # signed threshold
-    thr = None
-    ifs = [n for n in walk_no_nested(fn) if isinstance(n, ast.If)]
-    for i in ifs:
-        for t in sym.flatten_bool(i.test):
-            if isinstance(t, ast.Compare) and len(t.ops) == 1:
-                l, op, r = t.left, t.ops[0], t.comparators[0]
-                if isinstance(l, ast.Call) and call_name(l) == "value.bit_length" and isinstance(op, ast.Eq):
-                    thr = sym.affine(r, env) == bits
-                elif norm(l) == "value" and isinstance(op, ast.GtE):
-                    thr = sym.pow2_exp(r, env) == bits - sym.const(1)
-                elif norm(l) == "value" and isinstance(op, ast.Gt):
-                    thr = sym.mask_width(r, env) == bits - sym.const(1)
-                elif isinstance(l, ast.BinOp) and isinstance(l.op, ast.BitAnd):
-                    thr = any(sym.pow2_exp(p, env) == bits - sym.const(1) for p in (l.left, l.right))
-        has_signed = any(norm(t) == "signed" for t in sym.flatten_bool(i.test))
-        if thr is not None:
-            ctx.ob("C39.R3", site, "negative iff signed and bit (bits-1) is set", thr and has_signed, construct="sign-threshold", node=i, detail=norm(i.test))
-            neg_ret = [r for r in i.body if isinstance(r, ast.Return)]
-            okr = bool(neg_ret) and sym.affine(neg_ret[0].value, env) == sym.atom("value") - sym.affine(ast.Name(id="base"), env) if "base" in env else False
-            if neg_ret:
-                a = sym.affine(neg_ret[0].value, {})
-                okr = a == sym.atom("value") - sym.atom("base") or (a is not None and False)
-                if not okr:
-                    # value - (1 << bits)
-                    v = neg_ret[0].value
-                    okr = isinstance(v, ast.BinOp) and isinstance(v.op, ast.Sub) and norm(v.left) == "value" and sym.pow2_exp(v.right, env) == bits
-            ctx.ob("C39.R3", site, "negative result is value - (1 << bits)", okr, construct="neg-result", node=i)
-    if thr is None:
-        ctx.undecided("C39.R3", site, "sign threshold test not recognised")
+    from ..shapes import check_wrap_function
+    check_wrap_function(ctx, "C39.R3", ctx.fn(F, "correct"), F + ":correct")
     for qual, flag in (("to_signed", True), ("to_unsigned", False)):
         fn = ctx.fn(F, qual)
         cs = list(calls_in(fn, "correct"))
